@@ -9,6 +9,8 @@ pub mod c10;
 pub mod c08;
 pub mod c11;
 pub mod c15;
+pub mod c06;
+pub mod c07;
 pub mod c12;
 
 pub type ReplayResult = Result<(bool, String), String>;
@@ -22,6 +24,8 @@ pub fn run(prop: &str, ctx: &Ctx) -> Option<Report> {
         "C08" => Some(c08::run(ctx)),
         "C11" => Some(c11::run(ctx)),
         "C15" => Some(c15::run(ctx)),
+        "C06" => Some(c06::run(ctx)),
+        "C07" => Some(c07::run(ctx)),
         "C12" => Some(c12::run(ctx)),
         _ => None,
     }
@@ -36,6 +40,8 @@ pub fn replay(prop: &str, ctx: &Ctx, case: &Value) -> ReplayResult {
         "C08" => c08::replay(ctx, case),
         "C11" => c11::replay(ctx, case),
         "C15" => c15::replay(ctx, case),
+        "C06" => c06::replay(ctx, case),
+        "C07" => c07::replay(ctx, case),
         "C12" => c12::replay(ctx, case),
         _ => Err(format!("no replay for property {}", prop)),
     }
